@@ -61,6 +61,7 @@ impl Tr for u16 {
 }
 
 #[kani::proof]
+#[kani::unwind(4)]
 #[kani::stub(std::process::abort, abort_stub)]
 fn q_ok_arc_sized() {
     crate::ghost::arm();
@@ -69,6 +70,7 @@ fn q_ok_arc_sized() {
     core::mem::forget(a);
 }
 #[kani::proof]
+#[kani::unwind(4)]
 #[kani::stub(std::process::abort, abort_stub_checked)]
 fn q_abort_arc_sized() {
     crate::ghost::arm();
@@ -102,6 +104,7 @@ fn mk_dyn() -> Arc<dyn Tr> {
     unsafe { Arc::from_raw(p as *const dyn Tr) }
 }
 #[kani::proof]
+#[kani::unwind(4)]
 #[kani::stub(std::process::abort, abort_stub)]
 fn q_ok_arc_dyn() {
     crate::ghost::arm();
@@ -110,6 +113,7 @@ fn q_ok_arc_dyn() {
     core::mem::forget(a);
 }
 #[kani::proof]
+#[kani::unwind(4)]
 #[kani::stub(std::process::abort, abort_stub_checked)]
 fn q_abort_arc_dyn() {
     crate::ghost::arm();
@@ -165,6 +169,7 @@ fn q_abort_thin_with_arc() {
 macro_rules! offset_family {
     ($ok:ident, $ab:ident, |$o:ident, $a:ident| $op:expr) => {
         #[kani::proof]
+#[kani::unwind(4)]
         #[kani::stub(std::process::abort, abort_stub)]
         fn $ok() {
             crate::ghost::arm();
@@ -174,6 +179,7 @@ macro_rules! offset_family {
             core::mem::forget($a);
         }
         #[kani::proof]
+#[kani::unwind(4)]
         #[kani::stub(std::process::abort, abort_stub_checked)]
         fn $ab() {
             crate::ghost::arm();
@@ -199,6 +205,7 @@ offset_family!(q_ok_offset_borrow_clone_arc, q_abort_offset_borrow_clone_arc, |o
 
 // ---- ArcUnion, both variants
 #[kani::proof]
+#[kani::unwind(4)]
 #[kani::stub(std::process::abort, abort_stub)]
 fn q_ok_union_first() {
     crate::ghost::arm();
@@ -208,6 +215,7 @@ fn q_ok_union_first() {
     core::mem::forget(a);
 }
 #[kani::proof]
+#[kani::unwind(4)]
 #[kani::stub(std::process::abort, abort_stub_checked)]
 fn q_abort_union_first() {
     crate::ghost::arm();
@@ -217,6 +225,7 @@ fn q_abort_union_first() {
     core::mem::forget(a);
 }
 #[kani::proof]
+#[kani::unwind(4)]
 #[kani::stub(std::process::abort, abort_stub)]
 fn q_ok_union_second() {
     crate::ghost::arm();
@@ -226,6 +235,7 @@ fn q_ok_union_second() {
     core::mem::forget(a);
 }
 #[kani::proof]
+#[kani::unwind(4)]
 #[kani::stub(std::process::abort, abort_stub_checked)]
 fn q_abort_union_second() {
     crate::ghost::arm();
@@ -238,6 +248,7 @@ fn q_abort_union_second() {
 
 // ---- arc-swap's RefCnt::inc (used by Guard::into_inner / load_full): a clone entry point like the others
 #[kani::proof]
+#[kani::unwind(4)]
 #[kani::stub(std::process::abort, abort_stub)]
 fn q_ok_swap_inc() {
     crate::ghost::arm();
@@ -248,6 +259,7 @@ fn q_ok_swap_inc() {
     core::mem::forget(a);
 }
 #[kani::proof]
+#[kani::unwind(4)]
 #[kani::stub(std::process::abort, abort_stub_checked)]
 fn q_abort_swap_inc() {
     crate::ghost::arm();
